@@ -77,6 +77,16 @@ AllMasks ==
   (phase = "pre" /\ case.op = "uniform" /\ Len(case.p1) = Len(case.p2)) =>
      {FromP2(case.p2, o.child) : o \in Outcomes(case)} = SUBSET (1..Len(case.p1))
 
+(* "uniform crossover decides every position independently": in particular *)
+(* ANY two positions can be decided in all four ways (the conformance run  *)
+(* demands this of every pair of positions 1..128 apart in long genomes,   *)
+(* where a decision source that is re-used periodically would show)        *)
+PairsFree ==
+  (phase = "pre" /\ case.op = "uniform" /\ Len(case.p1) = Len(case.p2)) =>
+     \A i, j \in 1..Len(case.p1) : i # j =>
+        {<<i \in FromP2(case.p2, o.child), j \in FromP2(case.p2, o.child)>> : o \in Outcomes(case)}
+          = BOOLEAN \X BOOLEAN
+
 ExchangeExact ==
   (Post /\ case.op \in {"xgene", "xsegment"} /\ res.k = "ok") =>
      LET lo == IF case.op = "xgene" THEN case.i ELSE case.lo
